@@ -2,8 +2,8 @@
 # usage: confirm_mutant.sh <PROP> <n>    (agent worktree /tmp/mut/<PROP>, mutation m<n>.diff, demo demo_<PROP>_<n>.rs)
 # Confirms independently: (1) compiles + the 82 baseline tests still pass with the change, (2) demo fails with it,
 # (3) demo passes without it. Writes /verif/seeded/<PROP>-m<n>/{patch.diff,demo.rs,meta.json,confirm.log}
-P=$1; N=$2; WT=/tmp/mut/$P; M=$WT/MUTATIONS
-OUT=/verif/seeded/$P-m$N; mkdir -p $OUT
+P=$1; N=$2; ROUND=${3:-}; WT=/tmp/mut${ROUND}/$P; M=$WT/MUTATIONS
+OUT=/verif/seeded/$P${ROUND:+-r$ROUND}-m$N; mkdir -p $OUT
 cd $WT || exit 2
 git checkout -q -- src slotted-egraphs-derive
 cp $M/demo_${P}_$N.rs tests/demo_${P}_$N.rs 2>/dev/null
@@ -13,9 +13,9 @@ echo "== demo without mutation" >> $LOG
 cargo test --offline $FEAT --test demo_${P}_$N >> $LOG 2>&1; clean_demo=$?
 git apply $M/m$N.diff || { echo "patch does not apply" >> $LOG; exit 2; }
 echo "== suite with mutation" >> $LOG
-mkdir -p /tmp/mut/_demos_$P; mv tests/demo_* /tmp/mut/_demos_$P/ 2>/dev/null
+mkdir -p /tmp/mut${ROUND}/_demos_$P; mv tests/demo_* /tmp/mut${ROUND}/_demos_$P/ 2>/dev/null
 cargo test --workspace --no-fail-fast --offline 2>&1 | grep -E "^test result|^test .*FAILED|^error" >> $LOG
-mv /tmp/mut/_demos_$P/* tests/ 2>/dev/null
+mv /tmp/mut${ROUND}/_demos_$P/* tests/ 2>/dev/null
 failed=$(grep -E "^test [^ ]+ \.\.\. FAILED" $LOG | grep -v demo_ | sort -u | grep -vE "redundancy_matching_bug" | wc -l)
 passed=$(grep -E "^test result" $LOG | grep -oE "[0-9]+ passed" | awk '{s+=$1} END {print s}')
 echo "== demo with mutation" >> $LOG
@@ -26,8 +26,9 @@ cp $M/m$N.diff $OUT/patch.diff; cp $M/demo_${P}_$N.rs $OUT/demo.rs
 python3 - "$P" "$N" "$clean_demo" "$mut_demo" "$failed" "$guard_build" "$OUT" <<'PY'
 import sys, json, re
 P,N,clean,mut,failed,guard,out=sys.argv[1:]
-readme=open(f"/tmp/mut/{P}/MUTATIONS/README.md").read()
-meta={"id":f"{P}-m{N}","breaks_property":P,"source":"independent sub-agent given only the property text and a scratch worktree",
+import glob
+readme=open(glob.glob(f"/tmp/mut*/{P}/MUTATIONS/README.md")[-1]).read()
+meta={"id":out.rstrip("/").split("/")[-1],"breaks_property":P,"source":"independent sub-agent given only the property text and a scratch worktree",
  "confirmed":{"demo_passes_without_change":clean=="0","demo_fails_with_change":mut!="0","new_suite_failures_with_change":int(failed),"compiles_with_guard":guard=="0"},
  "what_i_ran":["cargo test --offline --test demo (clean tree)","git apply patch; cargo test --workspace --no-fail-fast --offline","cargo test --offline --test demo (with change)","RUSTFLAGS=--cfg slotted_egraphs_verif cargo build --offline --lib"],
  "needs_to_manifest":"see readme_excerpt","readme_excerpt":readme[:6000]}
